@@ -123,7 +123,7 @@ text("C19",
      "deterministic simulation with fault injection (step-mode attribution of server emissions, construction-based ground truth)", "DESIGN.md 4 C19")
 
 add("C16", "exploration",
-    [{"name": "tube-shutdown", "quick_s": 40, "thorough_s": 900}, {"name": "bulk-stop", "quick_s": 20, "thorough_s": 400}],
+    [{"name": "tube-shutdown", "quick_s": 40, "thorough_s": 900}, {"name": "bulk-stop", "quick_s": 20, "thorough_s": 400}, {"name": "stop-many-tubes", "quick_s": 8, "thorough_s": 150}],
     real=["tubes (Muxer, Reliable, Unreliable, sender, receiver): yield-instrumented copies of the current sources", "common.DeadlineChan"],
     stub=["transport session under the muxers in 7 of 8 runs (simulated MsgConn pair); in 1 of 8 runs the muxers run on a real transport session"])
 text("C16",
@@ -198,20 +198,20 @@ text("C07",
 # ---------------------------------------------------------------------------------------------------------------
 # what the scenarios gained during the seeded-change waves (DESIGN.md section 11); appended to the texts above
 ADDED = {
-    "C01": "in half of the impostor-client runs the server is built by the REAL hopserver.NewHopServer, so the verification policy is what the constructor derives from the configuration (CA certificates, enable/disable switches); impostors also tamper with the proof fields of their own final handshake messages (left out, shortened, zeroed, inverted, halves swapped, two bytes under one mask), present the expected label under another name type, use keys that were listed and removed again, and make preparatory attempts (own root in the intermediate slot, ...) against the server's long-lived verifier before the real attempt; client pinning policy (skip verification + pinned key); further goroutines that ask for the handshake's outcome at any time while the goroutine running it may be held inside a socket deadline call",
-    "C02": "two complete sweeps in the quick tier: per offset the masks single-bit, 0x80 and two seeded ones, every neighbouring byte pair under one mask, every truncation length alone and again right behind a full copy of the datagram from another address, 28 replacements",
-    "C03": "type-byte substitution on genuine packets, cross-injection of genuine packets between sessions and directions, late network duplicates of the handshake datagrams with the session outliving the server's handshake timeout; scenario write-cut-short: a multi-packet Write cut short by a socket error, a concurrent local Close or a peer Close on a loss-free network, the reported count judged against the payload bytes the socket transmitted during the call and against what the peer read",
-    "C04": "un-nested validity windows and forged intermediates naming a trusted root (signed with real keys through an overlay hook on the internal issuing routine), explicit verification times incl. past instants, names built through the public constructors, long-lived stores shared by many queries, stores loaded from PEM bundles, every question asked again on the same store",
-    "C05": "file edits between logins (same-size key replacement with preserved / same-second / later modification time; the simulated file system answers Stat), embedded key texts, run-time toggling of EnableAuthgrants, a slow file system (read and close take simulated time) with dense concurrent logins",
+    "C01": "in half of the impostor-client runs the server is built by the REAL hopserver.NewHopServer, so the verification policy is what the constructor derives from the configuration (CA certificates, enable/disable switches); impostors also tamper with the proof fields of their own final handshake messages (left out, shortened, zeroed, inverted, halves swapped, two bytes under one mask), present the expected label under another name type, use keys that were listed and removed again, and make preparatory attempts (own root in the intermediate slot, ...) against the server's long-lived verifier before the real attempt; client pinning policy (skip verification + pinned key); further goroutines that ask for the handshake's outcome at any time while the goroutine running it may be held inside a socket deadline call; an earlier handshake on the same server before the impostors' certificates run out (state a long-lived server keeps between handshakes)",
+    "C02": "two complete sweeps in the quick tier: per offset the masks single-bit, 0x80 and two seeded ones, every neighbouring byte pair under one mask, every truncation length alone and again right behind a full copy of the datagram from another address, 28 replacements; the altered datagram delivered 1-8 times; cookie swap: the ServerHello the server issued to ANOTHER address in answer to a copy of the victim's ClientHello (IPv4/IPv6, same/other port, same host other port)",
+    "C03": "type-byte substitution on genuine packets, cross-injection of genuine packets between sessions and directions, late network duplicates of the handshake datagrams with the session outliving the server's handshake timeout; scenario write-cut-short: a multi-packet Write cut short by a socket error, a concurrent local Close or a peer Close on a loss-free network, the reported count judged against the payload bytes the socket transmitted during the call and against what the peer read; handshakes bounded by an absolute deadline that the session outlives; message readers that start with a small buffer and retry larger on ErrBufOverflow",
+    "C04": "un-nested validity windows and forged intermediates naming a trusted root (signed with real keys through an overlay hook on the internal issuing routine), explicit verification times incl. past instants, names built through the public constructors, long-lived stores shared by many queries, stores loaded from PEM bundles, every question asked again on the same store; look-alike names (other case, letters that Unicode folding maps onto ASCII ones, trailing dot or blank)",
+    "C05": "file edits between logins (same-size key replacement with preserved / same-second / later modification time; the simulated file system answers Stat), embedded key texts, run-time toggling of EnableAuthgrants, a slow file system (read and close take simulated time) with dense concurrent logins; a server without any key set (what NewHopServer derives for skip-verify + grants): a refused grant must admit nobody",
     "C06": "pipelined delegate requests (several intents in flight on one connection), a scripted target answering each request 1-65 s late, stream pipes with read deadlines on the simulated clock; in a third of the runs the approval hook runs inside a real transport handshake with a real transport server standing for the target (VerifyConfig.AddVerifyCallback under store+name / store / InsecureSkipVerify); denial reasons that are not ASCII (<= 255 characters, > 255 bytes)",
     "C07": "forbidden tubes opened between the two tubes of an exec pair, commands sent seconds to hours after their tubes were opened, the same exec request twice at the same moment, a slow user lookup, overlapping logins with one delegate key under yields; the started command (text, shell flag, time) is taken from the server's own log entry; oracle on the transport layer's trusted-key set after the last grant of a key was consumed",
     "C08": "in a sixth of the runs the muxers run on a real transport session; sequence space of fresh tubes moved close to and across the 32-bit frame-number wrap; schedule perturbation in the tube code and a socket that holds writers up (bounded in time like the other faults); reassembly core with duplicate floods parked behind a gap",
-    "C09": "yields in the muxer, messages near and over the size limits (the simulated endpoints enforce the limits of what they stand for), a muxer that stops by itself is a violation, real transport under the muxers in an eighth of the runs",
-    "C10": "the multi-host server is built by the REAL hopserver.NewHopServer in 3 of 4 runs (VerifListen seam inserted by the build step); the attacker's own, correctly authenticated handshake messages with altered length prefixes and with certificate blobs of its own making; handshakes abandoned after the ClientAck followed later by an honest client from the same address; host patterns with literal text on both sides of the wildcard and names on their edges; sources the server cannot reach (its answers fail with an error); a session closed in the middle of the junk",
-    "C11": "the honest side closes every second Byzantine tube; a well-formed flood (unread unreliable tube, 990-2500 datagrams, FIN); the honest background transfer runs under loss, socket stalls and schedule perturbation",
+    "C09": "yields in the muxer, messages near and over the size limits (the simulated endpoints enforce the limits of what they stand for), a muxer that stops by itself is a violation, real transport under the muxers in an eighth of the runs; applications that read an ended reliable tube again later (after it was reaped and other tubes carry data)",
+    "C10": "the multi-host server is built by the REAL hopserver.NewHopServer in 3 of 4 runs (VerifListen seam inserted by the build step); the attacker's own, correctly authenticated handshake messages with altered length prefixes and with certificate blobs of its own making; handshakes abandoned after the ClientAck followed later by an honest client from the same address; host patterns with literal text on both sides of the wildcard and names on their edges; sources the server cannot reach (its answers fail with an error); a session closed in the middle of the junk; maximum-size datagrams (64503-65507 bytes) with a live session header; a second handshake from an address whose first one is still pending, with a name the server may be unable to answer",
+    "C11": "the honest side closes every second Byzantine tube; a well-formed flood (unread unreliable tube, 990-2500 datagrams, FIN); the honest background transfer runs under loss, socket stalls and schedule perturbation; identifier squatting (the peer opens tubes under every identifier of the honest side's parity, then the honest application opens one); a scripted closing exchange in every order on a tube the honest side closes at once",
     "C14": "send counters moved close to and across 2^32, 2^31, 2^48, 2^63 (the state a long-lived session reaches by itself); empty messages",
-    "C15": "truncated copies and port-only / host-only moves, receive queues of 1-4 packets with a slow application, several writers per connection with blocking socket writes",
-    "C16": "large writes, real transport under the muxers in an eighth of the runs, at closure the bytes a tube holds for its reader must all be returned",
+    "C15": "truncated copies and port-only / host-only moves, receive queues of 1-4 packets with a slow application, several writers per connection with blocking socket writes; counter gaps (a direction's send counter skips up to 600 values) followed by replays of recent packets; echoing applications and reschedule-only yields in the session paths with a causal oracle: once the application was handed the message of the packet that moved the peer, nothing sealed afterwards may go to the previous address",
+    "C16": "large writes, real transport under the muxers in an eighth of the runs, at closure the bytes a tube holds for its reader must all be returned; scenario stop-many-tubes: a muxer whose identifier space is (nearly) used up (100-140 opens of one kind, the ones beyond 128 must be refused) is stopped, in part of the runs while opens are still attempted; a loop that neither ends nor blocks is reported as livelock@function (iteration counter in every loop body of the instrumented copies)",
     "C17": "a timeout returned by a queue operation must be justified by a deadline that was in force during the call and had been reached on the simulated clock (deadlines set and taken back before they are reached); short-buffer reads with a byte-level connection model, long pauses (operations meeting a connection whose handshake failed), handshakes bounded by deadline only or by both, a server that falls silent after its first answer, socket Close reporting an error, harness Close calls bounded and judged",
     "C19": "multi-host servers built by the real hopserver.NewHopServer, hidden mode configured with names that match no host block, IPv6 client addresses, acknowledgements from the same address while its handshake is pending (altered / zero / foreign-key cookie, random bytes), acknowledgement under a KEM key differing from the cookie's in a few bytes",
 }
